@@ -989,6 +989,15 @@ func (w *memWalk) initial(at ssa.Instruction) *Term {
 	case *ssa.Alloc:
 		return mk("zero", "")
 	case *ssa.Parameter:
+		if len(w.full) == 0 {
+			// the pointee of a pointer parameter: aggregates follow Go's auto-dereference convention ($i),
+			// scalars and pointers are written deref($i) so that `p == nil` and `*p == 0` stay apart
+			switch derefType(b.Type()).Underlying().(type) {
+			case *types.Struct, *types.Array:
+			default:
+				return mk("deref", "", Param(e.pidx[b]))
+			}
+		}
 		return Param(e.pidx[b], w.full...)
 	case *ssa.Global:
 		return Global(globalName(b)).Field(w.full...)
